@@ -1515,9 +1515,28 @@ class Expander:
         exp = self
 
         def simple(e):
-            return isinstance(e, (ast.Constant, ast.Name)) or (isinstance(e, ast.Attribute) and exp._pure_chain(e))
+            if isinstance(e, (ast.Constant, ast.Name)) or (isinstance(e, ast.Attribute) and exp._pure_chain(e)):
+                return True
+            # cells computed without effects: truth value / kind / length of a name, and boolean combinations of those
+            if isinstance(e, ast.Call) and isinstance(e.func, ast.Name) and e.func.id in ('bool', 'isinstance', 'len') \
+                    and not e.keywords and e.args and all(simple(a) or (isinstance(a, ast.Tuple) and all(simple(x) for x in a.elts))
+                                                         for a in e.args):
+                return True
+            if isinstance(e, ast.BoolOp):
+                return all(simple(v) for v in e.values)
+            if isinstance(e, ast.UnaryOp) and isinstance(e.op, ast.Not):
+                return simple(e.operand)
+            return False
+
+        cur = {'fdef': None}
+        local = {}
+
+        def stores_of(st):
+            return {x.id for x in ast.walk(st) if isinstance(x, ast.Name) and isinstance(x.ctx, (ast.Store, ast.Del))}
 
         def rows_of(e):
+            if isinstance(e, ast.Name) and e.id in local:
+                return local[e.id][0]
             if isinstance(e, ast.Name) and e.id in tables:
                 return tables[e.id]
             if isinstance(e, ast.Attribute) and e.attr in tables and isinstance(e.value, ast.Name):
@@ -1531,11 +1550,29 @@ class Expander:
         def rewrite(stmts):
             out = []
             for s in stmts:
+                if isinstance(s, (ast.While, ast.For)) and local:
+                    # a table built before a loop is evaluated once: its cells must not change inside the loop
+                    lst = stores_of(s)
+                    for nm in [k for k, (rws, cells) in local.items() if lst & cells]:
+                        del local[nm]
                 for sub in ('body', 'orelse', 'finalbody'):
                     if isinstance(getattr(s, sub, None), list) and not isinstance(s, (ast.FunctionDef, ast.ClassDef)):
                         setattr(s, sub, rewrite(getattr(s, sub)))
                 for h in getattr(s, 'handlers', []) or []:
                     h.body = rewrite(h.body)
+                # a local bound once to a literal table, in this statement list, is a table until one of its cells' names is rebound
+                if not isinstance(s, ast.For) or not (isinstance(s.iter, ast.Name) and s.iter.id in local):
+                    st_names = stores_of(s)
+                    for nm in [k for k, (rws, cells) in local.items() if st_names & cells]:
+                        del local[nm]
+                if isinstance(s, ast.Assign) and len(s.targets) == 1 and isinstance(s.targets[0], ast.Name) and cur['fdef'] is not None:
+                    nm = s.targets[0].id
+                    nstores = sum(1 for x in ast.walk(cur['fdef']) if isinstance(x, ast.Name) and x.id == nm
+                                  and isinstance(x.ctx, (ast.Store, ast.Del)))
+                    rws = rows_of(s.value) if isinstance(s.value, (ast.Tuple, ast.List)) else None
+                    if rws is not None and nstores == 1 and nm not in {a.arg for a in cur['fdef'].args.args}:
+                        cells = {x.id for row in rws for el in row for x in ast.walk(el) if isinstance(x, ast.Name)}
+                        local[nm] = (rws, cells | {nm})
                 rows = rows_of(s.iter) if isinstance(s, ast.For) else None
                 if rows is None:
                     out.append(s)
@@ -1607,7 +1644,10 @@ class Expander:
             return out
         for m in self.modules.values():
             for fdef in [n for n in ast.walk(m.tree) if isinstance(n, ast.FunctionDef)]:
+                cur['fdef'] = fdef
+                local.clear()
                 fdef.body = rewrite(fdef.body)
+                local.clear()
 
     def drop_dead_nested_defs(self):
         for m in self.modules.values():
